@@ -2,6 +2,7 @@ from __future__ import annotations
 
 import functools
 import json
+import os
 import shutil
 import tempfile
 import warnings
@@ -41,12 +42,12 @@ class RunInfo:
     def __post_init__(self) -> None:
         if self.run_folder is None:
             return
-        self.dump()
         for input_name, value in self.inputs.items():
             input_path = _input_path(input_name, self.run_folder)
             dump(value, input_path)
         defaults_path = _defaults_path(self.run_folder)
         dump(self.defaults, defaults_path)
+        self.dump()  # last: `run_info.json` refers to the files written above
 
     @classmethod
     def create(
@@ -161,8 +162,10 @@ class RunInfo:
             data[key] = {_maybe_tuple_to_str(k): v for k, v in data[key].items()}
         data["run_folder"] = str(data["run_folder"])
         data["defaults_path"] = str(self.defaults_path)
-        with path.open("w") as f:
+        tmp_path = path.with_name(f".{path.name}.{os.getpid()}.tmp")
+        with tmp_path.open("w") as f:
             json.dump(data, f, indent=4)
+        os.replace(tmp_path, path)  # atomic: never a partially written `run_info.json`
 
     @classmethod
     def load(cls: type[RunInfo], run_folder: str | Path) -> RunInfo:
